@@ -1,9 +1,9 @@
 package rules
 
 import (
-	"go/types"
 	"fmt"
 	"go/token"
+	"go/types"
 	"strings"
 
 	"coapcheck/internal/core"
@@ -53,6 +53,12 @@ func runC05(e *Env) {
 		// the cache lookup: through the checkResponseCache wrapper when it exists, else the cache call itself (the wrapper is
 		// analysed as part of handleReq, so both spellings give the getResponseFromCache call)
 		lookups := core.CallsNamed(hr, "udp/client.Conn.getResponseFromCache")
+		if len(lookups) == 0 {
+			// the wrapper written out: the load from the reply cache itself (same result shape: found, error)
+			lookups = core.Calls(hr, func(n string, ci ssa.CallInstruction) bool {
+				return strings.HasSuffix(n, "MessageCache.Load") && strings.HasSuffix(tableOf(ci), ".responseMsgCache")
+			})
+		}
 
 		handles := core.CallsNamed(hr, "udp/client.Conn.handle")
 		if e.want("C05.R1") {
@@ -66,9 +72,14 @@ func runC05(e *Env) {
 			if len(locks) == 1 {
 				call := locks[0].(*ssa.Call)
 				q := &core.PathQuery{Fn: hr, From: call,
-					Stop:      func(in ssa.Instruction) bool { c, ok := in.(*ssa.Call); return ok && core.CalleeName(c) == "udp/client.Unlocker.Unlock" && core.Resolve(core.Arg(c, 0)) == ssa.Value(call) },
-					DeferStop: func(d *ssa.Defer) bool { return core.CalleeName(d) == "udp/client.Unlocker.Unlock" && core.Resolve(core.Arg(d, 0)) == ssa.Value(call) },
-					Target:    core.IsReturn}
+					Stop: func(in ssa.Instruction) bool {
+						c, ok := in.(*ssa.Call)
+						return ok && core.CalleeName(c) == "udp/client.Unlocker.Unlock" && core.Resolve(core.Arg(c, 0)) == ssa.Value(call)
+					},
+					DeferStop: func(d *ssa.Defer) bool {
+						return core.CalleeName(d) == "udp/client.Unlocker.Unlock" && core.Resolve(core.Arg(d, 0)) == ssa.Value(call)
+					},
+					Target: core.IsReturn}
 				w := q.Find()
 				e.R.Check(w == nil, "C05.R1", "udp/client.Conn.handleReq:lock-released", e.pos(call), "every exit releases the per-ID lock (deferred)", "an exit keeps the per-ID lock: "+e.trace(w))
 			}
@@ -230,10 +241,31 @@ func runC05(e *Env) {
 				continue
 			}
 			ok := false
+			// the helper's own message-ID parameter – or, when the lookup is written into the request handler itself, the message ID
+			// read from the request being handled
+			src := func(x ssa.Value) bool { return x == ssa.Value(f.Params[1]) }
+			wantCall := ""
+			if core.FnName(f) != q {
+				if hr == nil || len(hr.Params) != 3 {
+					continue
+				}
+				req := hr.Params[2]
+				src = func(x ssa.Value) bool {
+					mc, isCall := x.(*ssa.Call)
+					return isCall && core.CalleeName(mc) == "message/pool.Message.MessageID" && core.Resolve(core.Arg(mc, 0)) == ssa.Value(req)
+				}
+				wantCall = "MessageCache.Load"
+				if strings.HasSuffix(q, "addResponseToCache") {
+					wantCall = "MessageCache.Store"
+				}
+			}
 			for _, c := range core.Calls(f, func(n string, _ ssa.CallInstruction) bool {
+				if wantCall != "" {
+					return strings.HasSuffix(n, wantCall)
+				}
 				return strings.HasSuffix(n, "MessageCache.Store") || strings.HasSuffix(n, "MessageCache.Load")
 			}) {
-				if keyFromOnly(core.Arg(c, 1), f.Params[1], 0) {
+				if keyFromPred(core.Arg(c, 1), src, 0) {
 					ok = true
 				}
 			}
@@ -489,7 +521,9 @@ func c06Predicates(e *Env) {
 			}
 		}
 		if afterIf != nil {
-			for _, c := range core.Calls(f, func(n string, _ ssa.CallInstruction) bool { return strings.HasSuffix(n, "atomic.Uint32.Inc") || strings.HasSuffix(n, "atomic.Uint32.Add") }) {
+			for _, c := range core.Calls(f, func(n string, _ ssa.CallInstruction) bool {
+				return strings.HasSuffix(n, "atomic.Uint32.Inc") || strings.HasSuffix(n, "atomic.Uint32.Add")
+			}) {
 				if core.OnlyViaEdge(afterIf, true, c.(ssa.Instruction)) {
 					okInc = true
 				}
@@ -752,7 +786,17 @@ func c06Removals(e *Env) {
 				if _, fl, isF := core.FieldOf(ld.X); isF && fl == "msg" {
 					blk := i.Block().Succs[0]
 					if ret, isRet := blk.Instrs[len(blk.Instrs)-1].(*ssa.Return); isRet {
-						if b, isB := core.ConstBool(core.RetVal(ret, 1)); isB && !b {
+						// "nothing to send" is the false flag or, in a signature without a flag, the nil message
+						hasFlag := false
+						for k := range ret.Results {
+							if b, isB := core.ConstBool(core.RetVal(ret, k)); isB {
+								hasFlag = true
+								if !b {
+									ok = true
+								}
+							}
+						}
+						if !hasFlag && len(ret.Results) >= 1 && core.IsNilConst(core.RetVal(ret, 0)) {
 							ok = true
 						}
 					}
@@ -925,24 +969,29 @@ func c06ParamChain(e *Env, chk *ssa.Function) {
 // keyFromOnly: v is the decimal rendering of p and of nothing else: strconv.Itoa(int(p)), strconv.FormatInt(int64(p), 10),
 // possibly through a helper analysed as part of the caller.
 func keyFromOnly(v ssa.Value, p ssa.Value, d int) bool {
+	return keyFromPred(v, func(x ssa.Value) bool { return x == p }, d)
+}
+
+// keyFromPred: v is an injective rendering (decimal string, conversions) of a value satisfying src, and of nothing else.
+func keyFromPred(v ssa.Value, src func(ssa.Value) bool, d int) bool {
 	if d > 4 {
 		return false
 	}
 	v = core.Unwrap(v)
-	if v == p {
+	if src(v) {
 		return true
 	}
 	c, ok := v.(*ssa.Call)
 	if !ok {
 		r := core.Resolve(v)
-		return r != v && keyFromOnly(r, p, d+1)
+		return r != v && keyFromPred(r, src, d+1)
 	}
 	switch core.CalleeName(c) {
 	case "strconv.Itoa":
-		return keyFromOnly(c.Call.Args[0], p, d+1)
+		return keyFromPred(c.Call.Args[0], src, d+1)
 	case "strconv.FormatInt", "strconv.FormatUint":
 		base, isK := core.ConstInt(c.Call.Args[1])
-		return isK && base == 10 && keyFromOnly(c.Call.Args[0], p, d+1)
+		return isK && base == 10 && keyFromPred(c.Call.Args[0], src, d+1)
 	}
 	if h := core.AbsorbedCallee(c); h != nil {
 		for _, r := range core.ReturnsOf(h) {
@@ -951,7 +1000,7 @@ func keyFromOnly(v ssa.Value, p ssa.Value, d int) bool {
 			}
 			okRet := false
 			for k, hp := range h.Params {
-				if k < len(c.Call.Args) && keyFromOnly(core.RetVal(r, 0), hp, d+1) && keyFromOnly(c.Call.Args[k], p, d+1) {
+				if k < len(c.Call.Args) && keyFromOnly(core.RetVal(r, 0), hp, d+1) && keyFromPred(c.Call.Args[k], src, d+1) {
 					okRet = true
 				}
 			}
@@ -1035,7 +1084,10 @@ func udpAckWaits(e *Env) []ackWait {
 				if !isStruct || st.NumFields() != 0 {
 					continue
 				}
-				if c.Class == "req-ctx" || c.Class == "conn-ctx" || c.Class == "ctx" || c.Class == "timer" || c.Class == "done" {
+				if c.Class == "req-ctx" || c.Class == "conn-ctx" || c.Class == "ctx" || c.Class == "timer" {
+					continue
+				}
+				if c.Class == "done" && !fieldOfOtherObject(f, c.Chan) {
 					continue
 				}
 				seen[w.Instr] = true
@@ -1044,4 +1096,26 @@ func udpAckWaits(e *Env) []ackWait {
 		}
 	}
 	return out
+}
+
+// fieldOfOtherObject: the channel is a field of an object other than the receiver of the waiting method (a per-request waiter
+// struct handed in or built locally, whatever its field is called) – the connection's own done/stop channels are fields of the receiver.
+func fieldOfOtherObject(f *ssa.Function, ch ssa.Value) bool {
+	ld, ok := core.Resolve(ch).(*ssa.UnOp)
+	if !ok || ld.Op != token.MUL {
+		return false
+	}
+	fa, ok := ld.X.(*ssa.FieldAddr)
+	if !ok {
+		return false
+	}
+	base := core.Resolve(fa.X)
+	if f.Signature.Recv() != nil && len(f.Params) > 0 && base == ssa.Value(f.Params[0]) {
+		return false
+	}
+	if _, isFA := base.(*ssa.UnOp); isFA {
+		// a field of a field of something: not a per-request object
+		return false
+	}
+	return true
 }
